@@ -32,7 +32,7 @@ let show_send s = match s with
       (hex_of_str (join [n_of_int 32] scopes)) (show_secret grant)
 let show_result r = match r with
   | RResp true -> "=401" | RResp false -> "=ok"
-  | RErr ENoCred -> "=nocred" | RErr EMissing -> "=missing" | RErr EFetch -> "=fetch" | RErr ERewind -> "=rewind" | RErr ETransport -> "=transport" | RErr ECred -> "=crederr"
+  | RErr ENoCred -> "=nocred" | RErr EMissing -> "=missing" | RErr EFetch -> "=fetch" | RErr ERewind -> "=rewind" | RErr ETransport -> "=transport" | RErr ECred -> "=crederr" | RErr EShared -> "=fetch"
   | RBad -> "=BAD"
 
 let parse_answer t =
@@ -43,6 +43,7 @@ let parse_answer t =
   | 'F' -> AFail
   | 'S' -> AShare (n_of_int (int_of_string (String.sub t 1 (String.length t - 1))))
   | 'X' -> AErr
+  | 'Z' -> AShareFail
   | _ -> failwith "answer"
 
 let () =
